@@ -177,6 +177,13 @@ func (n *hnode) Process(ctx context.Context, e *el.Event) (*el.Event, error) {
 	r.mu.Lock()
 	r.inProcess--
 	r.last = time.Now()
+	nr := tev{K: "ret", Obj: n.obj, Ein: eid, Out: "drop"}
+	if err != nil {
+		nr.Out, nr.Ev = "err", errID(err)
+	} else if out != nil {
+		nr.Out, nr.Ev = "pass", r.internEv(out)
+	}
+	r.noderets = append(r.noderets, nr)
 	r.mu.Unlock()
 	return out, err
 }
@@ -249,6 +256,7 @@ type rec struct {
 	occ       map[pkey]int
 	evIDs     map[*el.Event]int
 	nodecalls [][2]int
+	noderets  []tev
 	sched     Sched
 	cancel    func()
 	rnd       *hc.Rand
@@ -314,7 +322,7 @@ func (r *rec) waitGate() {
 		if !free && !r.cancelled && time.Since(start) > 30*time.Millisecond {
 			free = true
 		}
-		if !free && time.Since(start) > 2*time.Second {
+		if !free && time.Since(start) > 10*time.Second {
 			free = true
 		}
 		r.mu.Unlock()
@@ -523,6 +531,7 @@ type Result struct {
 	Trace      []tev      `json:"trace"`
 	Points     []Point    `json:"-"`
 	NodeCalls  [][2]int   `json:"nodecalls"`
+	NodeRets   []tev      `json:"noderets"`
 	E0         int        `json:"e0"`
 	Event0OK   bool       `json:"event0_ok"`
 	Complete   []int      `json:"complete"`
@@ -648,6 +657,7 @@ func execCase(c Case) (res Result) {
 	res.Trace = append([]tev(nil), r.events...)
 	res.Points = append([]Point(nil), r.points...)
 	res.NodeCalls = append([][2]int(nil), r.nodecalls...)
+	res.NodeRets = append([]tev(nil), r.noderets...)
 	res.Event0OK = r.event0ok
 	res.Cancelled = r.cancelled
 	res.HoldTO, res.RecvTO, res.Unknown = r.holdTimeouts, r.recvTimeouts, r.unknownRefs
@@ -743,7 +753,7 @@ func opLit(op Op) string {
 }
 
 func caseLit(c Case, res Result) string {
-	var hist, trace, calls, snap []string
+	var hist, trace, calls, rets, snap []string
 	for _, op := range c.Hist {
 		hist = append(hist, opLit(op))
 	}
@@ -752,6 +762,16 @@ func caseLit(c Case, res Result) string {
 	}
 	for _, nc := range res.NodeCalls {
 		calls = append(calls, hc.Pair(hc.N(nc[0]), hc.N(nc[1])))
+	}
+	for _, nr := range res.NodeRets {
+		o := "ODrop"
+		switch nr.Out {
+		case "pass":
+			o = "OPass " + hc.N(nr.Ev)
+		case "err":
+			o = "OErr " + hc.N(nr.Ev)
+		}
+		rets = append(rets, fmt.Sprintf("(%s, %s, %s)", hc.N(nr.Obj), hc.N(nr.Ein), o))
 	}
 	snapLit := "None"
 	if res.HasGraph {
@@ -764,13 +784,9 @@ func caseLit(c Case, res Result) string {
 		}
 		snapLit = "Some " + hc.List(snap)
 	}
-	e0 := res.E0
-	if e0 == 0 {
-		e0 = 1
-	}
-	return fmt.Sprintf("{| d_id := %s; d_hist := %s; d_ety := %s; d_snapshot := %s; d_pre := %s; d_e0 := %s;\n   d_trace := %s;\n   d_quiet := %s; d_nodecalls := %s; d_event0_ok := %s; d_status := (%s, %s, %s); d_err := %s; d_err_ctx := %s |}",
-		hc.N(c.ID), hc.List(hist), hc.N(c.Ety), snapLit, hc.B(c.Sched.Pre), hc.N(e0), hc.List(trace),
-		hc.B(res.Quiet), hc.List(calls), hc.B(res.Event0OK), hc.NList(res.Complete), hc.NList(res.Sinks), hc.NList(res.Warnings),
+	return fmt.Sprintf("{| d_id := %s; d_hist := %s; d_ety := %s; d_snapshot := %s; d_pre := %s;\n   d_trace := %s;\n   d_quiet := %s; d_nodecalls := %s; d_noderets := %s; d_event0_ok := %s; d_status := (%s, %s, %s); d_err := %s; d_err_ctx := %s |}",
+		hc.N(c.ID), hc.List(hist), hc.N(c.Ety), snapLit, hc.B(c.Sched.Pre), hc.List(trace),
+		hc.B(res.Quiet), hc.List(calls), hc.List(rets), hc.B(res.Event0OK), hc.NList(res.Complete), hc.NList(res.Sinks), hc.NList(res.Warnings),
 		hc.B(res.Err), hc.B(res.ErrCtx))
 }
 
@@ -784,11 +800,17 @@ type emitter struct {
 	panics    []string
 	latencies []int64
 	nextID    int
+	current   string
 }
 
 func (e *emitter) run(c Case) Result {
 	e.nextID++
 	c.ID = e.nextID
+	if e.current != "" {
+		// a panic inside a goroutine of the library kills this process: leave the running case behind for the report
+		js, _ := json.Marshal(c)
+		os.WriteFile(e.current, js, 0o644)
+	}
 	res := execCase(c)
 	e.stats["cases"]++
 	e.stats["gen:"+c.Gen]++
@@ -941,7 +963,7 @@ func main() {
 	if err != nil {
 		panic(err)
 	}
-	e := &emitter{cf: cf, side: side, stats: map[string]int{}, sigs: map[string]bool{}}
+	e := &emitter{cf: cf, side: side, stats: map[string]int{}, sigs: map[string]bool{}, current: *out + "/current_case.json"}
 	r := hc.NewRand(hc.Seed())
 	if *corpus != "" {
 		runCorpus(e, *corpus, *corpusRepeat)
@@ -968,6 +990,7 @@ func main() {
 	}
 	cf.Close()
 	side.Close()
+	os.Remove(e.current)
 	el.VerifSetHook(nil)
 	time.Sleep(20 * time.Millisecond)
 	summary["graph_goroutines_at_exit"] = countGraphGoroutines()
